@@ -5,7 +5,7 @@ from tools.props.rfa_units import RfaUnit, FunfitUnit, AdaptiveWindowsUnit, RfaM
 
 class P(Property):
     id = "C04"
-    gen_targets = ["Funfit"]
+    gen_targets = ["Funfit", "RfaGlue"]
 
     def units(self, tier):
         return [RfaUnit(("C04",))]
